@@ -213,7 +213,7 @@ type profile struct {
 
 var allActs = []string{"equivocate", "badparent", "staleqc", "inflate", "dupsigner", "relabel", "subquorum",
 	"wrongblock", "genesisview", "futuretimeout", "badtimeoutsig", "dupvote", "multivote", "zerovote", "unknownvote",
-	"strayvote", "replay", "liefetch", "silent", "staleTC", "swapids", "nosig", "sameview", "aggreplay", "forgevote", "forgetc", "forgecontrib", "aggtwin", "aggattest", "aggforge", "roguekey"}
+	"strayvote", "replay", "liefetch", "silent", "staleTC", "swapids", "nosig", "sameview", "aggreplay", "forgevote", "forgetc", "forgecontrib", "aggtwin", "aggattest", "aggforge", "roguekey", "payloadeq", "qceq"}
 
 func profileFor(prop string) profile {
 	pr := profile{byz: 0.6, acts: allActs, faults: 6, leaders: []string{"round-robin", "round-robin", "round-robin", "fixed", "carousel", "reputation", "scripted"}}
@@ -238,6 +238,7 @@ func profileFor(prop string) profile {
 		pr.faultFree = 0.2
 	case "C06":
 		pr.clients = true
+		pr.acts = append(append([]string{}, allActs...), "payloadeq", "payloadeq", "payloadeq", "payloadeq", "equivocate", "equivocate")
 	case "C10":
 		pr.inject = 40
 		pr.forceWire = true
@@ -253,7 +254,8 @@ func profileFor(prop string) profile {
 		pr.acts = []string{"dupvote", "multivote", "multivote", "zerovote", "zerovote", "unknownvote", "strayvote", "replay", "equivocate", "futuretimeout", "forgevote", "forgevote", "forgevote"}
 		pr.leaders = []string{"round-robin", "fixed", "scripted"}
 	case "C16":
-		pr.byz = 0.3
+		pr.byz = 0.5
+		pr.acts = append(append([]string{}, allActs...), "qceq", "qceq", "qceq", "qceq", "qceq", "qceq", "qceq", "qceq")
 		pr.leaders = []string{"round-robin", "fixed", "carousel", "carousel", "reputation", "reputation"}
 	}
 	return pr
